@@ -1,15 +1,15 @@
 #!/bin/bash
-# usage: ./seeds.sh [name...]  — apply each stored seeded change to /repo, run the property's quick check,
+# usage: ./seeds.sh [name...]  — apply each stored seeded change to a scratch worktree of /repo, run the property's quick check,
 # expect a VIOLATION, revert; records the harnesses that caught it in seeded/<name>/meta.json
 cd /verif
 names="$@"; [ -z "$names" ] && names=$(ls seeded)
 rc=0
 for n in $names; do
   prop=${n%%-*}
-  git -C /repo diff --quiet || { echo "/repo not clean"; exit 2; }
-  git -C /repo apply /verif/seeded/$n/patch.diff || { echo "$n: patch does not apply"; rc=1; continue; }
-  out=$(./check $prop quick 2>&1); code=$?
-  git -C /repo checkout -- .
+  wt=/tmp/wt-seed-$$; git -C /repo worktree add -q --detach $wt HEAD || exit 2
+  git -C $wt apply /verif/seeded/$n/patch.diff || { echo "$n: patch does not apply"; rc=1; git -C /repo worktree remove --force $wt; continue; }
+  out=$(bin/gosmt check -prop $prop -tier quick -verif /verif -repo $wt 2>&1); code=$?
+  git -C /repo worktree remove --force $wt; git -C /verif checkout -q -- evidence/$prop.json 2>/dev/null
   by=$(echo "$out" | grep -o "replay=/verif/replay/$prop-[A-Za-z0-9_]*" | sed "s#.*/$prop-##" | sort -u | tr '\n' ' ')
   rm -rf /verif/replay
   if [ $code -eq 1 ]; then echo "$n CAUGHT exit=$code by: $by"; else echo "$n MISSED exit=$code"; rc=1; fi
